@@ -229,7 +229,133 @@ def check(ctx):
         elif bool(out.isnan().any()):
             ctx.fail("WhalleyWilmott module returns NaN at zero time to maturity / zero volatility", case, key="ww_module:edge:nan",
                      detail={"output": out.tolist(), "width": ww.width(inp[..., :-1]).tolist()})
+    # ---------------- the module layer (BS* modules, BlackScholes(derivative)): the same statements through the objects a user and
+    # the hedgers call.  (a) modules built with a strike / call flag, evaluated at explicit t = 0 / v = 0 inputs; (b) modules built
+    # from a simulated or injected derivative, evaluated on the derivative's own state: every (path, step) with time to maturity 0
+    # (the last column) or volatility 0 must carry the certain payoff, and the last column must equal derivative.payoff()
+    import pfhedge.nn as pnn
+    import pfhedge.instruments as pin
+    from hedge_common import gen_market, build_derivative, tens
+    OPT_FN = {"EuropeanOption": "european", "EuropeanBinaryOption": "european_binary",
+              "AmericanBinaryOption": "american_binary", "LookbackOption": "lookback"}
+
+    def nan_key(fn):
+        return "bs_lookback_delta:nan-at-expiry" if fn == "lookback_delta" else f"bs_module:{fn}:nan-at-expiry"
+
+    for _ in range(300 if ctx.tier == "quick" else 4000):
+        option = g.choice(sorted(OPT_FN))
+        pd = option in ("AmericanBinaryOption", "LookbackOption")
+        what = g.choice(["price", "delta"])
+        fn = OPT_FN[option] + "_" + what
+        call = True if pd else g.chance(0.5)
+        k = g.choice([0.5, 0.9, 2.0, 7.5, 1.0])
+        s = g.choice(ss)
+        which = g.choice(["t0", "v0", "both"])
+        t = 0.0 if which in ("t0", "both") else g.choice([0.1, 1.0, 2.5])
+        v = 0.0 if which in ("v0", "both") else g.choice([0.1, 0.2, 1.0])
+        m = (max(s, 0.0) + g.choice([0.0, 0.0, 0.1, 1.0]) if g.chance(0.7) else s) if pd else s
+        built = g.choice(["direct", "from_derivative", "BlackScholes"])
+        case = {"module": "BS" + option, "built": built, "method": what, "s": s, "t": t, "v": v, "k": k, "m": m, "call": call, "which": which}
+        ctx.case(case, True, tag="bs_module_edge")
+        ctx.stats[f"module_fn={fn}"] += 1
+        ctx.traces += 1
+        cls = getattr(pnn, "BS" + option)
+        if built == "direct":
+            mod = cls(strike=k) if pd else cls(call=call, strike=k)
+        else:
+            d_ = getattr(pin, option)(pin.BrownianStock(), call=call, strike=k)
+            mod = cls.from_derivative(d_) if built == "from_derivative" else pnn.BlackScholes(d_)
+        T_ = lambda x: torch.tensor([x], dtype=torch.float64)
+        kw = {"log_moneyness": T_(s), "time_to_maturity": T_(t), "volatility": T_(v)}
+        if pd:
+            kw["max_log_moneyness"] = T_(m)
+        st, out, _ = call_impl(getattr(mod, what), **kw)
+        if st != "ok":
+            ctx.fail(f"BS{option}.{what} raised at t=0 / v=0", case, key=f"bs_module:{fn}:edge-error", detail=out)
+            continue
+        got = float(out.reshape(-1)[0])
+        if math.isnan(got):
+            ctx.fail(f"BS{option}.{what} is NaN at zero time to maturity / zero volatility", case, key=nan_key(fn), detail="nan")
+            continue
+        exp = certain_payoff(fn, s, k, m, call)
+        if exp is not None and not (abs(got - exp) <= 1e-9 * max(1.0, abs(exp))):
+            ctx.fail(f"BS{option}.{what} at zero time to maturity / volatility differs from the certain payoff / limiting delta", case,
+                     key=f"bs_module:{fn}:value-at-expiry", detail={"module": got, "expected": exp})
+        ref = float(call_bs(torch, fnl, fn, [s], [t], [v], k, [m], call).reshape(-1)[0])
+        if kind(ref) != kind(got) or (kind(got) == "fin" and abs(ref - got) > 1e-9 * max(1.0, abs(got))):
+            ctx.fail(f"BS{option}.{what} at zero time to maturity / volatility differs from the functional form bs_{fn}", case,
+                     key=f"bs_module:{fn}:differs-from-functional", detail={"module": got, "functional": ref})
+    for _ in range(60 if ctx.tier == "quick" else 600):
+        option = g.choice(sorted(OPT_FN))
+        pd = option in ("AmericanBinaryOption", "LookbackOption")
+        call = True if pd else g.chance(0.5)
+        source = g.choice(["simulated", "simulated", "injected"])
+        built = g.choice(["BlackScholes", "from_derivative"])
+        if source == "injected":
+            mk = gen_market(g, primary=g.choice(["BrownianStock", "HestonStock"]))     # Heston: zero volatilities inside the path
+            mk["option"], mk["call"] = option, call
+            if mk["primary"] == "BrownianStock" and g.chance(0.3):
+                mk["sigma"] = F(0)
+                mk["vol"] = [[F(0)] * mk["T"] for _ in range(mk["N"])]
+                mk["var"] = mk["vol"]
+            d, u = build_derivative(torch, mk)
+            k = float(mk["strike"])
+            case = {"option": option, "call": call, "strike": k, "built": built, "source": source, "primary": mk["primary"],
+                    "spot": enc_rat(mk["spot"]), "vol": enc_rat(mk["vol"]), "dt": rat_str(mk["dt"])}
+        else:
+            und = g.choice(["brownian", "heston"])
+            sig = g.choice([0.2, 0.5, 0.0])
+            k = g.choice([0.9, 1.0, 1.1, 0.5, 2.0])
+            u = pin.BrownianStock(sigma=sig, dtype=torch.float64) if und == "brownian" else pin.HestonStock(dtype=torch.float64)
+            d = getattr(pin, option)(u, call=call, strike=k, maturity=g.choice([3 / 250, 10 / 250]))
+            tseed = g.randint(0, 2 ** 31 - 1)
+            torch.manual_seed(tseed)
+            d.simulate(n_paths=g.choice([1, 3, 8]), init_state=(g.choice([1.0, 1.0, 0.8, 1.25]),) if und == "brownian" else None)
+            case = {"option": option, "call": call, "strike": k, "built": built, "source": source, "underlier": und,
+                    "sigma": sig if und == "brownian" else None, "torch_seed": tseed, "spot": u.spot.tolist()}
+        ctx.case(case, True, tag="bs_module_paths")
+        ctx.stats[f"module_paths:{option}:{source}"] += 1
+        ctx.traces += 1
+        mod = pnn.BlackScholes(d) if built == "BlackScholes" else getattr(pnn, "BS" + option).from_derivative(d)
+        spot, vol = u.spot.detach().clone(), u.volatility.detach().clone()
+        st1, price, _ = call_impl(mod.price, watch=[("derivative", d)])
+        st2, delta, _ = call_impl(mod.delta, watch=[("derivative", d)])
+        if st1 != "ok" or st2 != "ok" or tuple(price.shape) != tuple(spot.shape) or tuple(delta.shape) != tuple(spot.shape):
+            ctx.fail("price() / delta() of a module built from a simulated derivative raised or has the wrong shape", case,
+                     key=f"bs_module:{option}:paths:error", detail=[str(price)[:100], str(delta)[:100]])
+            continue
+        N_, T_n = spot.shape
+        sp, vl, pr, dl = spot.tolist(), vol.tolist(), price.detach().tolist(), delta.detach().tolist()
+        pay = d.payoff().tolist()
+        bad = set()
+        for p_ in range(N_):
+            run = -math.inf
+            for j in range(T_n):
+                run = max(run, sp[p_][j])
+                if not (j == T_n - 1 or vl[p_][j] == 0.0):
+                    continue
+                s_, m_ = math.log(sp[p_][j] / k), math.log(run / k)
+                at = case | {"path": p_, "step": j, "s": s_, "m": m_, "v": vl[p_][j], "last_column": j == T_n - 1}
+                for what, val in (("price", pr[p_][j]), ("delta", dl[p_][j])):
+                    fn = OPT_FN[option] + "_" + what
+                    if (fn, "nan") not in bad and math.isnan(val):
+                        bad.add((fn, "nan"))
+                        ctx.fail(f"{what}() of the module built from a derivative is NaN where the time to maturity or the volatility of the "
+                                 "simulated state is zero", at, key=nan_key(fn), detail="nan")
+                    exp = certain_payoff(fn, s_, k, m_, call)
+                    if (fn, "val") not in bad and exp is not None and not math.isnan(val) and not (abs(val - exp) <= 1e-9 * max(1.0, abs(exp))):
+                        bad.add((fn, "val"))
+                        ctx.fail(f"{what}() of the module built from a derivative differs from the certain payoff / limiting delta where the time to "
+                                 "maturity or the volatility of the simulated state is zero", at, key=f"bs_module:{fn}:value-at-expiry",
+                                 detail={"module": val, "expected": exp})
+            # the maturity column is the payoff of that path (a European binary exactly at the strike is not constrained)
+            at_strike = option == "EuropeanBinaryOption" and sp[p_][-1] == k
+            if "pay" not in bad and not at_strike and not math.isnan(pr[p_][-1]) and not (abs(pr[p_][-1] - pay[p_]) <= 1e-9 * max(1.0, abs(pay[p_]))):
+                bad.add("pay")
+                ctx.fail("BlackScholes(derivative).price() at time to maturity 0 (last column) differs from derivative.payoff()", case | {"path": p_},
+                         key=f"bs_module:{option}:maturity-column-vs-payoff", detail={"price[:, -1]": pr[p_][-1], "payoff": pay[p_]})
     return ctx.finish(
         rule="bs_* functions (4 prices, 3 deltas, European gamma/vega/theta, d1/d2) at t=0, v=0, both, tiny (5e-324,1e-300,1e-16), negative; "
-             "|log-moneyness| in {0,1e-12,..,700}, strikes, call/put, running max >= spot; real BS/WW hedgers on simulated Brownian/Heston paths; "
+             "|log-moneyness| in {0,1e-12,..,700}, strikes, call/put, running max >= spot; real BS/WW hedgers on simulated Brownian/Heston paths; the four BS modules (direct / from_derivative / BlackScholes, strikes != 1, calls and puts) "
+             "at explicit t=0 / v=0 inputs and on simulated / injected derivatives (last column vs payoff, zero-volatility steps); "
              "every case non-trivial; distinct = sha1 of canonical case")
